@@ -1,11 +1,11 @@
 (* Properties_C09.v — C09: well-formed MessagePack decodes to the value it encodes; malformed is classified.
-   Proved for the canonical (narrowest) encodings, i.e. those serializeMsgPack itself produces; the other legal
-   width choices (non-minimal integers and lengths) are covered by the correspondence run with an independent
-   encoder, not by a theorem: C09_noncanonical_partial. *)
+   First for the canonical (narrowest) encodings, i.e. those serializeMsgPack itself produces (Proofs/MsgPackRT), then
+   for EVERY legal encoding of the format — every width of every family — against the wire format written as a
+   relation from the MessagePack specification (Spec/MsgPackSpec.v, Proofs/MsgPackComplete.v). *)
 From Coq Require Import NArith ZArith List Bool.
 From Coq Require Import Floats.SpecFloat.
 From AJ Require Import Model.Base Model.FloatModel Model.Value Model.JsonParse Model.MsgPack.
-From AJ Require Import Proofs.MsgPackRT.
+From AJ Require Import Proofs.MsgPackRT Spec.MsgPackSpec Proofs.MsgPackComplete.
 Local Open Scope Z_scope.
 
 Theorem C09_decodes_canonical : forall cf v L rest, mp_ok v -> (nesting v <= L)%nat ->
@@ -40,6 +40,42 @@ Theorem C09_non_string_key : forall cf L,
   mp_err (mp_run cf None (S L) [129; 196; 1; 97; 1]%N) = InvalidInput.  (* key a bin8 *)
 Proof. intros. unfold mp_run. destruct L; repeat split; reflexivity. Qed.
 Print Assumptions C09_non_string_key.
+
+(* Every legal encoding (MpEnc: all widths, non-minimal integers and lengths, str 8/16/32 keys, fixext...) of an
+   object within the library's size limits decodes to the value it denotes, consuming exactly its bytes, whatever
+   follows — provided the nesting limit admits its depth. *)
+Theorem C09_decodes_every_legal_encoding : forall cf v b, MpEnc v b -> mp_limits v -> forall L rest,
+  (mpv_depth v <= L)%nat ->
+  mp_run cf None L (b ++ rest) =
+    {| mp_err := Ok; mp_doc := mp_den (use_double cf) v;
+       mp_rd := {| m_rest := rest; m_reads := N.of_nat (length b) |} |}.
+Proof. exact mp_run_complete. Qed.
+Print Assumptions C09_decodes_every_legal_encoding.
+
+(* every strict prefix of every legal encoding is IncompleteInput (EmptyInput when nothing is there) *)
+Theorem C09_every_strict_prefix_incomplete : forall cf v b L, MpEnc v b -> mp_limits v ->
+  (mpv_depth v <= L)%nat -> forall p q, b = p ++ q -> q <> [] ->
+  mp_err (mp_run cf None L p) = match p with [] => EmptyInput | _ => IncompleteInput end.
+Proof. exact mp_prefix_incomplete_gen. Qed.
+Print Assumptions C09_every_strict_prefix_incomplete.
+
+(* what serializeMsgPack writes is a legal encoding in the sense of the specification *)
+Theorem C09_serializer_output_is_legal : forall v, mp_ok v ->
+  MpEnc (mpv_of v) (mp_ser v) /\ mp_limits (mpv_of v) /\ mpv_depth (mpv_of v) = nesting v /\
+  forall ud, mp_den ud (mpv_of v) = mp_norm_gen ud v.
+Proof. exact mp_ser_legal. Qed.
+Print Assumptions C09_serializer_output_is_legal.
+
+(* the size limit in the hypothesis is needed: a 65536-byte string is refused with NoMemory *)
+Example C09_limits_needed : mp_err (mp_run default_cfg None 1 [0xDB; 0; 1; 0; 0]%N) = NoMemory.
+Proof. exact limits_needed. Qed.
+
+(* non-vacuity: a map 16 with a str 16 key holding an array 32 of a uint 16 and a str 32 *)
+Example C09_wide_example : forall cf,
+  mp_run cf None 2 [0xDE; 0; 1; 0xDA; 0; 1; 0x61; 0xDD; 0; 0; 0; 2; 0xCD; 0; 5; 0xDB; 0; 0; 0; 1; 0x62]%N =
+    {| mp_err := Ok; mp_doc := JObj [([0x61%N], JArr [JInt 5; JStr [0x62%N]])];
+       mp_rd := {| m_rest := []; m_reads := 21 |} |}.
+Proof. exact wide_map_decodes. Qed.
 
 Example C09_example :   (* non-minimal widths: uint64 5, str32 "a", array32 — decoded all the same *)
   mp_doc (mp_run default_cfg None 10 [221; 0; 0; 0; 2; 207; 0; 0; 0; 0; 0; 0; 0; 5; 219; 0; 0; 0; 1; 97]%N)
